@@ -995,7 +995,7 @@ class ModelFeatures:
         lhs = self._extract_covariates()
         rhs = other._extract_covariates()
         # Should OPTIONAL be ignored?
-        return all(c in rhs for c in lhs)
+        return all(c in rhs for c in lhs) and all(c in lhs for c in rhs)
 
     def _extract_peripherals(self):
         peripheral_dict = {"MET": set(), "DRUG": set()}
